@@ -30,7 +30,7 @@ def programs_c01(tier):
     out = []
     ns = (0, 1, 2, 4, 7, 11) if tier == "quick" else (0, 1, 2, 3, 4, 5, 6, 8, 13, 21)
     for nj, bs, pre, ra, n, dur in itertools.product(
-            (2, 3), (1, 2, "auto"), ("all", "n_jobs", "2*n_jobs", 1), ("list", "generator", "generator_unordered"),
+            (2, 3), (1, 2, "auto"), ("all", "n_jobs", "2*n_jobs", 1, 0, "n_jobs-2"), ("list", "generator", "generator_unordered"),
             ns, ("flat", "dec")):
         out.append(dict(n_jobs=nj, batch_size=bs, pre_dispatch=pre, return_as=ra, n=n, dur=dur, fail=None, reuse=False))
     return out
